@@ -336,6 +336,50 @@ def layout_obligations(mir):
     return uq, um
 
 
+LOOKAHEAD_ACCEPTS = {
+    # head instruction -> the kinds of cell its unification kernel can succeed on (C10's kernels:
+    # unify_list / unify_structure / unify_partial_string bind variables and descend into these kinds,
+    # every other kind fails)
+    "GetList": ["Lis", "PStrLoc", "Str", "Var", "StackVar", "AttrVar"],
+    "GetStructure": ["Str", "Var", "StackVar", "AttrVar"],
+    "GetPartialString": ["PStrLoc", "Lis", "Str", "Var", "StackVar", "AttrVar"],
+}
+
+
+def lookahead_obligations(mir):
+    """Machine::next_clause_applicable (the look-ahead of try_me_else / retry_me_else / indexed_try /
+    retry): a clause may only be skipped when its first head instruction cannot unify with the
+    argument. Per head-instruction arm, for every kind of cell the instruction's kernel can accept,
+    there is a path that does NOT answer `false` (so no acceptable kind is rejected by its tag), and
+    every other kind is rejected. -> list of {obligation, ok, why}"""
+    from .c11 import enum_values
+    tagname = {v: k for k, v in enum_values("src/types.rs", "HeapCellValueTag").items()}
+    ns = [n for n in mir.index if n.endswith("::next_clause_applicable")]
+    if len(ns) != 1:
+        raise core.Unsupported("next_clause_applicable: %s" % ns)
+    body = mir.body(ns[0])
+    heads = util.back_edge_targets(body)
+    out = []
+    for instr, accepts in LOOKAHEAD_ACCEPTS.items():
+        entry = util.arm_entry(body, instr)
+        paths = core.Executor(body, stop_blocks=tuple(heads), max_depth=400, max_paths=4000).run(entry)
+        res = {}
+        for p in paths:
+            tg = [tagname.get(c[2], str(c[2])) if c[1] == "==" else "other" for c in p.conds
+                  if c[0][0] == "disc" and c[0][1][0] == "app" and c[0][1][1].endswith("get_tag")]
+            if not tg:
+                continue
+            rejected = p.end == "return" and p.env.get("_0") == ("c", 0)
+            res.setdefault(tg[0], set()).add("reject" if rejected else "go on")
+        missing = [t for t in accepts if "go on" not in res.get(t, set())]
+        out.append({"obligation": "next_clause_applicable, %s: no kind of cell the instruction can unify with is "
+                    "rejected by its tag (%s)" % (instr, ", ".join(accepts)), "ok": not missing,
+                    "why": "always rejected: %s" % missing if missing else ""})
+        out.append({"obligation": "next_clause_applicable, %s: every other kind of cell is rejected" % instr,
+                    "ok": res.get("other") == {"reject"}, "why": str(sorted(res.get("other", [])))})
+    return out
+
+
 def run(thorough=False):
     try:
         mir, secs, cached = util.get()
@@ -345,6 +389,7 @@ def run(thorough=False):
         cl = clause_side(mir)
         af = alternatives_fn(mir)
         lay_q, lay_m = layout_obligations(mir)
+        look = lookahead_obligations(mir)
     except Exception as e:  # noqa
         log("  mirsmt C06: cannot extract (%s)" % e)
         return {"exit": EXIT_INCONCLUSIVE, "mirsmt_error": str(e)}
@@ -425,7 +470,8 @@ def run(thorough=False):
            "mirsmt_routing": rt_got,
            "mirsmt_regions": ["execute_switch_on_term (SwitchOnConstant arm)",
                               "CodeOffsets::index_constant", "constant_key_alternatives",
-                              "CodeOffsets::compute_indices (layout of the first-level index)"],
+                              "CodeOffsets::compute_indices (layout of the first-level index)",
+                              "Machine::next_clause_applicable (clause look-ahead by head instruction)"],
            "mirsmt_facts": {"lookup_sites": cs, "helper": hf, "site_normalises": site_norm,
                             "call_guard_constant": tagc, "clause_side": cl,
                             "constant_key_alternatives": af},
@@ -515,6 +561,21 @@ def run(thorough=False):
             exit_code = EXIT_VIOLATION
         elif exit_code == EXIT_OK:
             log("  mirsmt C06: layout difference did not reproduce (%s) -> inconclusive" % rp.get("why"))
+            exit_code = EXIT_INCONCLUSIVE
+    look_bad = [x for x in look if not x["ok"]]
+    for x in look:
+        res["evaluations"] += 1
+        res["distinct_nontrivial"] += 1 if x["ok"] else 0
+        res["samples"].append({"query": x["obligation"], "answer": "holds" if x["ok"] else "fails", "note": x["why"]})
+    log("  mirsmt C06: clause look-ahead: %d obligations, %d violated" % (len(look), len(look_bad)))
+    if look_bad:
+        res["mirsmt_lookahead_violations"] = look_bad
+        rp = prolog.replay_lookahead(look_bad)
+        if rp["reproduced"]:
+            log("VIOLATION property=C06 replay=%s" % rp["path"])
+            exit_code = EXIT_VIOLATION
+        elif exit_code == EXIT_OK:
+            log("  mirsmt C06: look-ahead difference did not reproduce (%s) -> inconclusive" % rp.get("why"))
             exit_code = EXIT_INCONCLUSIVE
     res["exit"] = exit_code
     return res
